@@ -1,2 +1,8 @@
 import DaskArrayModel.Py.Basic
+import DaskArrayModel.Proto
 import DaskArrayModel.Model.Slicing
+import DaskArrayModel.Model.SliceSpec
+import DaskArrayModel.Model.Rechunk
+import DaskArrayModel.Model.RechunkSpec
+import DaskArrayModel.Props.C13
+import DaskArrayModel.Props.C15
